@@ -111,6 +111,11 @@ class Evaluator:
                 return {"len": len, "max": max, "min": min, "abs": abs, "int": int, "bool": bool, "sum": sum, "any": any, "all": all, "str": str, "tuple": tuple, "list": tuple, "range": range, "bytes": bytes, "divmod": divmod, "bytearray": bytearray}[e.func.id](*args, **kw)
             except Exception:
                 raise Unsupported(e)
+        if isinstance(e, ast.Call) and ast.unparse(e.func) in ("math.ceil", "ceil") and len(e.args) == 1 and isinstance(e.args[0], ast.BinOp) and isinstance(e.args[0].op, ast.Div):
+            a, b = self.ev(e.args[0].left), self.ev(e.args[0].right)
+            if isinstance(a, int) and isinstance(b, int) and b > 0:
+                return -(-a // b)
+            raise Unsupported(e)
         if isinstance(e, (ast.Tuple, ast.List, ast.Set)):
             return tuple(self.ev(x) for x in e.elts)
         if isinstance(e, ast.UnaryOp):
